@@ -126,8 +126,8 @@ package termincommittee
 //@   | && (!HasProof(vcm.content) ==> vcm.block == nil)
 
 // the conditions under which a member adopts a NEW_VIEW (every rejecting branch of HandleNewView excluded); NVC(k) is
-// the k-th vote nested in the header. Where several votes carry a proof of the highest view the conditions are demanded
-// of each of them (the handler picks one). The environment hypotheses of the fresh-block path: the context registry hands
+// the k-th vote nested in the header. The lock conditions are demanded of every vote that carries a proof of the highest
+// view among the votes (the handler picks one of them). The environment hypotheses of the fresh-block path: the context registry hands
 // out the context of (height, view), no context is cancelled while the message is handled, the consumer approves the block.
 //@ pred NVVotesGood(tic *TermInCommittee, hdr *protocol.NewViewHeader) =
 //@   | (forall qids []primitives.MemberId :: len(qids) == seq_len(hdr, "ViewChangeConfirmations") && (forall qk :: 0 <= qk && qk < seq_len(hdr, "ViewChangeConfirmations") ==> qids[qk] == seq_at(hdr, "ViewChangeConfirmations", qk).Sender().MemberId())
@@ -146,7 +146,10 @@ package termincommittee
 //@   | && nvm.content.Sender().MemberId() == LeaderOf(tic.committeeMembers, nvm.content.SignedHeader().View())
 //@   | && NVVotesGood(tic, nvm.content.SignedHeader())
 //@   | && nvm.content.Message().SignedHeader().View() == nvm.content.SignedHeader().View() && nvm.content.Message().SignedHeader().BlockHeight() == nvm.content.SignedHeader().BlockHeight()
-//@   | && (forall lk :: 0 <= lk && lk < seq_len(nvm.content.SignedHeader(), "ViewChangeConfirmations") && HasProof(seq_at(nvm.content.SignedHeader(), "ViewChangeConfirmations", lk)) ==> NVLockGood(tic, nvm, seq_at(nvm.content.SignedHeader(), "ViewChangeConfirmations", lk)))
+//@   | && (forall lk :: 0 <= lk && lk < seq_len(nvm.content.SignedHeader(), "ViewChangeConfirmations") && HasProof(seq_at(nvm.content.SignedHeader(), "ViewChangeConfirmations", lk))
+//@   |        && (forall lj :: 0 <= lj && lj < seq_len(nvm.content.SignedHeader(), "ViewChangeConfirmations") && HasProof(seq_at(nvm.content.SignedHeader(), "ViewChangeConfirmations", lj))
+//@   |              ==> seq_at(nvm.content.SignedHeader(), "ViewChangeConfirmations", lj).SignedHeader().PreparedProof().PreprepareBlockRef().View() <= seq_at(nvm.content.SignedHeader(), "ViewChangeConfirmations", lk).SignedHeader().PreparedProof().PreprepareBlockRef().View())
+//@   |      ==> NVLockGood(tic, nvm, seq_at(nvm.content.SignedHeader(), "ViewChangeConfirmations", lk)))
 //@   | && ((forall lk :: 0 <= lk && lk < seq_len(nvm.content.SignedHeader(), "ViewChangeConfirmations") ==> !HasProof(seq_at(nvm.content.SignedHeader(), "ViewChangeConfirmations", lk))) ==>
 //@   |      !tic.State.Contexts.shutdown && (tic.State.Contexts.newestHvCanceledOlder == nil || !Older(tic.State.height, nvm.content.SignedHeader().View(), tic.State.Contexts.newestHvCanceledOlder.height, tic.State.Contexts.newestHvCanceledOlder.view))
 //@   |      && (forall lc context.Context :: StaysLive(lc))
